@@ -947,16 +947,17 @@ func ruleListIterationStable(c *Ctx, rule string) {
 	if fl := c.NeedFunc(rule, "storage.(*fileStore).flushPages"); fl != nil {
 		okRange := false
 		inspectBody(fl.Decl.Body, func(x ast.Node) bool {
-			if rs, ok := x.(*ast.RangeStmt); ok {
-				if _, isMap := fl.TypeOf(rs.X).Underlying().(*types.Map); isMap && len(fl.Calls(rs.Body, false, "storage.*.update", "storage.*.save")) > 0 {
-					okRange = true
+			if rs, ok := x.(*ast.RangeStmt); ok && len(fl.Calls(rs.Body, false, "storage.*.update")) > 0 {
+				switch fl.TypeOf(rs.X).Underlying().(type) {
+				case *types.Map, *types.Slice, *types.Array:
+					okRange = true // a map, or a slice collected beforehand: neither is reordered by the writes
 				}
 			}
 			return true
 		})
 		n++
 		if okRange {
-			c.OK(rule, fl.Name+"|ranges-over-map", fl.Decl.Pos(), 1, "the flush ranges over the cache map")
+			c.OK(rule, fl.Name+"|ranges-over-map", fl.Decl.Pos(), 1, "the loop that writes the pages ranges over the cache map (or a slice collected from it)")
 		} else {
 			hasWalk := false
 			for _, o := range c.Obs {
